@@ -31,6 +31,7 @@ def _partition_check(case):
     kind, N, W, mode, seed, epoch = (case[k] for k in ("kind", "N", "world", "mode", "seed", "epoch"))
     per_rank = []
     uneven = N % W != 0
+    world_free = None
     for rank in range(W):
         with fakes.process_group(rank, W):
             if mode == "raise" and uneven:
@@ -40,7 +41,17 @@ def _partition_check(case):
             s = _make(kind, N, epoch, seed, mode)
             declared = len(s)
             direct = _ints(s.get_samples_for_epoch(epoch))
+            # documented: "Ignores the distributed environment. All replicas should return the same value."
+            ignoring = _ints(s.get_samples_for_epoch_ignoring_distributed(epoch))
             got = _ints(iter(s))
+            if world_free is None:
+                with fakes.process_group(0, 1):
+                    world_free = _ints(_make(kind, N, epoch, seed, "uneven").get_samples_for_epoch_ignoring_distributed(epoch))
+            require(ignoring == world_free,
+                    "get_samples_for_epoch_ignoring_distributed depends on the distributed environment (rank %d of %d, mode %s)" % (rank, W, mode),
+                    ignoring, world_free)
+            require(sorted(ignoring) == list(range(N)), "the epoch order ignoring the distributed environment is not a permutation of range(N)",
+                    ignoring, N)
         require(got == direct, "iter() and get_samples_for_epoch disagree", got, direct)
         require(declared == len(got), "len(sampler) != number of indices yielded (rank %d)" % rank, declared, len(got))
         require(all(0 <= i < N for i in got), "index out of range", got, "0..%d" % (N - 1))
